@@ -246,6 +246,7 @@ def inspect_frame(frame: FrameType) -> FrameDetails:
             else:
                 # Suspended: map the addresses on the stack back to actual
                 # objects with gc.get_referents(), which is the safest way.
+                _verif_hook("inspect_frame:pre_stack", frame)
                 stack = [
                     ctypes.c_size_t.from_address(id(frame) + offset).value
                     for offset in range(
